@@ -256,7 +256,7 @@ for _nm, _lo, _hi in (('kcolor', 1, 30), ('domset', 1, 14), ('kclique', 1, 16), 
         lambda t: dict(t[0], k=max(t[1], 1) if True else t[1], k2=t[2], f=t[3], o=t[4], pl=t[5], kn=t[6], cnfgen=t[7]))
 
 T_CHAIN = [['xor', 2], ['or', 2], ['maj', 3], ['eq', 2], ['neq', 2], ['one', 2], ['atleast', 3, 2], ['atmost', 2, 1], ['exact', 3, 1],
-           ['anybut', 2, 1], ['ite'], ['lift', 2], ['lift', 3], ['flip'], ['shuffle'], ['xorcomp', 2], ['majcomp', 3]]
+           ['anybut', 2, 1], ['ite'], ['lift', 2], ['lift', 3], ['flip'], ['shuffle'], ['shuffle', 'nothing'], ['xorcomp', 2], ['majcomp', 3]]
 
 
 def apply_chain(F, chain, seed):
@@ -285,7 +285,10 @@ def apply_chain(F, chain, seed):
             F = cnfgen.FlipPolarity(F)
         elif name == 'shuffle':
             random.seed(seed)
-            F = cnfgen.Shuffle(F)
+            if len(t) > 1 and t[1] == 'nothing':
+                F = cnfgen.Shuffle(F, 'fixed', 'fixed', 'fixed')       # asked to move nothing: still a formula of its own
+            else:
+                F = cnfgen.Shuffle(F)
         else:
             R = max(1, n // 2)
             B = bip(n, R, t[1], seed)
@@ -326,6 +329,22 @@ def run_family(case):
             G, nv2 = apply_chain(F, chain, p['s'])
             audit(G, what + " + " + str(chain), nv2)
             audit(F, what + " (after the transformations)", nv)
+            # the result is a formula of its own: it is extended (a clause over a never-seen variable, a variable, a block),
+            # what it hands out is fresh for it, and the source neither grows nor hears of it
+            src_rows, src_n = len(F), F.number_of_variables()
+            G.add_clause([nv2 + 1, -1] if nv2 else [1])
+            v = G.new_variable('harness_after')
+            blk = list(G.new_block(2, label='hb_{{{}}}'))
+            top = max(nv2 + 1, 1)
+            if not (v == top + 1 and blk == [top + 2, top + 3]):
+                raise Violation("{} + {}: after a clause mentioning variable {} the result hands out variable {} and block {}, expected {} and {}".format(
+                    what, chain, top, v, blk, top + 1, [top + 2, top + 3]))
+            if G.number_of_variables() != top + 3:
+                raise Violation("{} + {}: the extended result declares {} variables, expected {}".format(what, chain, G.number_of_variables(), top + 3))
+            if len(F) != src_rows or F.number_of_variables() != src_n:
+                raise Violation("{} + {}: extending the result changed the source formula ({} rows / {} variables, before {} / {})".format(
+                    what, chain, len(F), F.number_of_variables(), src_rows, src_n))
+            audit(F, what + " (after the result was extended)", nv)
             labels.append('chain-length>={}'.format(min(len(chain), 2)))
             labels += ['T:' + t[0] for t in chain]
         else:
